@@ -84,10 +84,14 @@ type VConn struct {
 	Remote, Local net.Addr
 	Closed        int
 	Deadlines     int
+	Written       [][]byte
 }
 
 func (c *VConn) Read(p []byte) (int, error)         { return 0, net.ErrClosed }
-func (c *VConn) Write(p []byte) (int, error)        { return len(p), nil }
+func (c *VConn) Write(p []byte) (int, error) {
+	c.Written = append(c.Written, append([]byte{}, p...))
+	return len(p), nil
+}
 func (c *VConn) Close() error                       { c.Closed++; return nil }
 func (c *VConn) LocalAddr() net.Addr                { return c.Local }
 func (c *VConn) RemoteAddr() net.Addr               { return c.Remote }
